@@ -978,17 +978,17 @@ def run(ctx):
                         'float arithmetic on the generated dyadic values is exact (checked per case; inexact cases skip the exact hash tie)',
                         'scale on a Cartesian separated grid with an axis of fewer than two points and no stored weights raises IndexError '
                         '(automatic weights undefined) and is treated as outside the quantifier']
-    n = ctx.scale(2500, 20000)
+    n = ctx.scale(2500, 13000)
     cases = [(c, 'directed') for c in DIRECTED + DIRECTED_SHARED + DIRECTED_FLOAT]
     for k in range(n):
         cases.append((gen_case(ctx.rng, big=(ctx.tier == 'thorough' and k % 4 == 0)), 'random'))
-    for k in range(ctx.scale(300, 2500)):
+    for k in range(ctx.scale(300, 2000)):
         cases.append((gen_float_case(ctx.rng), 'float-shift'))
     all_lines = []
     plan = []
     nan_plan = []
     ref_plans = []
-    nan_cases = list(DIRECTED_NAN) + [gen_nan_case(ctx.rng) for _ in range(ctx.scale(250, 2000))]
+    nan_cases = list(DIRECTED_NAN) + [gen_nan_case(ctx.rng) for _ in range(ctx.scale(250, 1500))]
     for case in nan_cases:
         obs = run_nan_real(case)
         for key, what in nan_oracle(obs):
